@@ -44,6 +44,8 @@ def plan(tier, seed):
     for c in range(4):
         shards.append(("sched", c, 4, tier))
     shards.append(("overlap_realloc",))
+    for c in range(4):
+        shards.append(("scanpairs", c, 4, tier))
     if tier == "quick":
         # a slice of the 2x3 pair space as well (every 64th first frame)
         for c in range(16):
@@ -405,7 +407,102 @@ def _run_sched(desc):
     return sh
 
 
+SCAN_MASKS = [0x000, 0x001, 0x800, 0xFFF, 0x0F0, 0x333, 0xA5A, 0x5A5, 0x111, 0x660, 0x909, 0x07E]       # 3x4 frames, bit k = pixel k
+
+
+def _write_scan(fn, frames, omega):
+    import h5py
+    rows, cols, nnz = [], [], []
+    for m in frames:
+        i, j = np.nonzero(m)
+        rows.append(i); cols.append(j); nnz.append(len(i))
+    with h5py.File(fn, "w") as h:
+        g = h.create_group("1.1")
+        g.attrs["nframes"] = len(frames); g.attrs["shape0"] = 3; g.attrs["shape1"] = 4
+        g["row"] = np.concatenate(rows).astype(np.uint16); g["col"] = np.concatenate(cols).astype(np.uint16)
+        g["intensity"] = np.ones(sum(nnz), np.float32); g["nnz"] = np.array(nnz, np.int32)
+        g["measurement/rot"] = np.asarray(omega, float)
+        g["measurement/dty"] = np.zeros(len(frames))
+
+
+def _run_scanpairs(desc):
+    """the overlap bookkeeping of the peak-merging code (sinograms.properties.pairrow / pairscans, built on overlaps_linear): scans of
+    three 3x4 frames (every ordered triple of 12 masks; quick: a quarter) stored in HDF5 with the frames NOT in omega order; every
+    consecutive pair in omega order, and every omega-matched pair of two scans, is listed once with exactly the shared pixels per
+    label pair; empty frames are skipped"""
+    _, c, nch, tier = desc
+    import shutil
+    from ImageD11 import sparseframe as sf
+    from ImageD11.sinograms import properties as PR
+    sh = Shard()
+    wd = os.path.join(os.path.dirname(os.path.dirname(os.path.dirname(os.path.abspath(__file__)))), ".work", "c14_sp_%d" % os.getpid())
+    os.makedirs(wd, exist_ok=True)
+    masks = [np.array([(x >> k) & 1 for k in range(12)], bool).reshape(3, 4) for x in SCAN_MASKS]
+    omega = np.array([20.0, 10.0, 30.0])            # stored order is not the omega order
+
+    def labelled(fn):
+        s_ = sf.SparseScan(fn, "1.1")
+        s_.cplabel(threshold=0, countall=False)
+        return s_
+
+    def frame_of(s_, i):
+        a, b = s_.ipt[i], s_.ipt[i + 1]
+        return (s_.row[a:b], s_.col[a:b], s_.labels[a:b])
+
+    def same(ans, want):
+        ne, rcl = ans
+        got = {} if rcl is None else {(int(a), int(b)): int(n_) for a, b, n_ in rcl}
+        return ne == len(want) and got == want and (rcl is None or len(rcl) == len(got))
+    try:
+        idx = 0
+        for trip in itertools.product(range(len(masks)), repeat=3):
+            idx += 1
+            if idx % nch != c or (tier == "quick" and (idx // nch) % 4 != 0):
+                continue
+            fn = os.path.join(wd, "a.h5")
+            _write_scan(fn, [masks[t] for t in trip], omega)
+            s1 = labelled(fn)
+            case = {"kind": "scanpairs", "frames": [SCAN_MASKS[t] for t in trip], "omega": omega.tolist()}
+            pairs = PR.pairrow(s1, 7)
+            order = [1, 0, 2]
+            want = {}
+            for a, b in ((order[0], order[1]), (order[1], order[2])):
+                if s1.nnz[a] and s1.nnz[b]:
+                    want[(7, a, 7, b)] = oracle_overlap(frame_of(s1, a), frame_of(s1, b))
+            if set(pairs) != set(want):
+                sh.violation("pairrow:wrong-set-of-frame-pairs", case, {"got": sorted(map(list, pairs)), "expected": sorted(map(list, want))})
+            elif any(not same(pairs[k], want[k]) for k in want):
+                k = [k for k in want if not same(pairs[k], want[k])][0]
+                sh.violation("pairrow:overlaps-wrong", dict(case, pair=list(k)), {"got": pairs[k], "expected": sorted(want[k].items())})
+            # a second scan row: the same three frames rotated by one, omegas 360 degrees later and 0.03 off (inside the tolerance)
+            fn2 = os.path.join(wd, "b.h5")
+            om2 = np.array([370.03, 380.0, 399.0])       # 10.03 matches 10, 20 matches 20, 39 matches nothing
+            _write_scan(fn2, [masks[trip[1]], masks[trip[2]], masks[trip[0]]], om2)
+            s2 = labelled(fn2)
+            s2.sinorow = 8
+            got2 = PR.pairscans(s1, s2)
+            want2 = {}
+            for i, j in ((0, 1), (1, 0)):            # s1 frame 0 (omega 20) <-> s2 frame 1 (380); s1 frame 1 (10) <-> s2 frame 0 (370.03)
+                if s1.nnz[i] and s2.nnz[j]:
+                    want2[(7, i, 8, j)] = oracle_overlap(frame_of(s1, i), frame_of(s2, j))
+            if set(got2) != set(want2):
+                sh.violation("pairscans:wrong-set-of-frame-pairs", case, {"got": sorted(map(list, got2)), "expected": sorted(map(list, want2))})
+            elif any(not same(got2[k], want2[k]) for k in want2):
+                k = [k for k in want2 if not same(got2[k], want2[k])][0]
+                sh.violation("pairscans:overlaps-wrong", dict(case, pair=list(k)), {"got": got2[k], "expected": sorted(want2[k].items())})
+            sh.evaluations += 1
+            if sum(len(v) for v in want.values()) >= 2:
+                sh.nontrivial += 1
+            sh.outcomes.add(("scanpairs", len(want), len(want2)))
+        sh.sample(case, limit=1)
+    finally:
+        shutil.rmtree(wd, ignore_errors=True)
+    return sh
+
+
 def run_shard(desc):
+    if desc[0] == "scanpairs":
+        return _run_scanpairs(desc)
     if desc[0] == "sched":
         return _run_sched(desc)
     if desc[0] == "overlap_realloc":
@@ -418,7 +515,10 @@ def run_shard(desc):
 
 def replay(case):
     sh = Shard()
-    if case["kind"] == "overlap_realloc":
+    if case["kind"] == "scanpairs":
+        r = _run_scanpairs(("scanpairs", 0, 1, "thorough"))
+        sh.violations = [v for v in r.violations if v["case"]["frames"] == case["frames"]]
+    elif case["kind"] == "overlap_realloc":
         sh.violations = _run_overlap_realloc(("overlap_realloc",)).violations
     elif case["kind"] == "sched":
         tier = "quick" if case["shape"] == [3, 3] else "thorough"
